@@ -860,7 +860,7 @@ def class_flag_rule(ctx, prefix):
     return obs
 
 
-def class_name_table(ctx, f):
+def class_name_table(ctx, f, with_names=False):
     """what write_maybe_class_name emits for every combination of (class position, prefix configured, sign configured):
     -> list of problems, or None when a combination cannot be followed"""
     import absint as ai
@@ -885,6 +885,15 @@ def class_name_table(ctx, f):
                 kind = "prefixed"
             elif ai.is_unknown(v):
                 kind = "?"
+            if with_names:
+                ns_ = [o for o in it.ev(e["args"][2], st) if o.kind == "val"]
+                nv = ns_[0].value if len(ns_) == 1 else ai.UNK
+                if len(ns_) == 1:
+                    st = ns_[0].st
+                if isinstance(nv, tuple) and nv[:1] == ("Some",):
+                    kind += "+name"
+                elif nv != ai.NONE:
+                    kind += "+?"
             return [(ai.UNIT, st.event(("emit", kind)))]
         if e.get("k") == "call":
             # a predicate of the crate over the token text: both answers are possible inputs, not an unknown of the analysis
@@ -908,11 +917,11 @@ def class_name_table(ctx, f):
                     outs = it.run(f.body, env)
                 except ai.TooManyPaths:
                     return None
-                want = (["sign"] if in_class and sign != ai.NONE else []) + (["prefixed"] if in_class and pfx != ai.NONE else ["plain"])
+                want = (["sign"] if in_class and sign != ai.NONE else []) + (["prefixed" + ("+name" if with_names else "")] if in_class and pfx != ai.NONE else ["plain"])
                 for o in outs:
                     got = [ev[1] for ev in o.events if ev[0] == "emit"]
                     if got != want:
-                        if o.tainted or "?" in got:
+                        if o.tainted or any("?" in x for x in got):
                             return None
                         probs.append("in a %s position, prefix %s, sign %s: writes %s (expected %s)" % ("class" if in_class else "non-class", "configured" if pfx != ai.NONE else "absent", "configured" if sign != ai.NONE else "absent", got or "nothing", want))
     return sorted(set(probs))
@@ -1639,6 +1648,48 @@ def source_token_rules(ctx, prefix):
     ob = ctx.ob
     sc = ctx.sc
     obs = []
+    # wave 9 (a) of the tokens written for a class name only the rewritten identifier carries the original spelling as its name
+    wf = [f for f in sc.fns if f.name == "write_maybe_class_name" and f.body]
+    if len(wf) == 1:
+        tab = class_name_table(ctx, wf[0], with_names=True)
+        obs.append(ob("%s.names/class" % prefix, None if tab is None else not tab, ctx.where(wf[0]),
+                      "not followed: not decided" if tab is None else "; ".join(tab) if tab else "the sign comment and a copied identifier carry no name; the prefixed identifier carries the source spelling",
+                      witness=None if not tab else "with a prefix sign, the comment gets the class name and the rewritten class has none"))
+    # wave 9 (b) brackets opened for wrappers are closed innermost first: each closer carries the position of its own opener, so
+    #     the stack of closers is consumed from its end (pop / reversed iteration), never front to back
+    fifo, n_cl = [], 0
+    for g in sc.fns:
+        if not g.body:
+            continue
+        for lp in sir.walk(g.body, into_closures=True):
+            if lp.get("k") == "for":
+                t = sir.expr_str(lp["e"]).replace(" ", "")
+                vs_ = set(x["name"] for x in sir.walk(lp["pat"]) if x.get("k") == "p_ident")
+                if any(x.get("k") == "mcall" and x["m"] == "append_nested_block_close" and x["args"] and sir.expr_str(sir.strip_ref(x["args"][0])) in vs_ for x in sir.walk(lp["body"])):
+                    n_cl += 1
+                    if not re.search(r"\.rev\(\)", t):
+                        fifo.append("%s closes `%s` front to back" % (g.name, t[:40]))
+            def closes_bound(lp_, pat_):
+                vs = set(x["name"] for x in sir.walk(pat_) if x.get("k") == "p_ident")
+                return any(x.get("k") == "mcall" and x["m"] == "append_nested_block_close" and x["args"] and sir.expr_str(sir.strip_ref(x["args"][0])) in vs for x in sir.walk(lp_["body"]))
+            if lp.get("k") == "while" and lp["cond"].get("k") == "let" and closes_bound(lp, lp["cond"]["pat"]):
+                n_cl += 1
+                t = sir.expr_str(lp["cond"]["e"]).replace(" ", "")
+                if not t.endswith(".pop()"):
+                    fifo.append("%s closes by `%s`" % (g.name, t[:40]))
+    obs.append(ob("%s.pair/close-order" % prefix, (not fifo) if n_cl >= 3 else None, "lib.rs", "; ".join(fifo[:2]) if fifo else "%d closing loops, each innermost first" % n_cl,
+                  witness=None if not fifo else "@import 'a' layer(l) screen; : the `}` of `@media` carries the position of `layer(`"))
+    # wave 9 (c) the text that is tokenised is the text the map is built for: the parser input and both outputs get the same string
+    for g in sc.fns:
+        if not g.body or g.base != "StyleSheetTransformer":
+            continue
+        pin = [x for x in sir.walk(g.body) if x.get("k") == "call" and (sir.call_path(x) or "").endswith("ParserInput::new") and x["args"]]
+        outs_ = [x for x in sir.walk(g.body) if x.get("k") == "call" and (sir.call_path(x) or "").endswith("StyleSheetOutput::new") and len(x["args"]) == 2]
+        if pin and outs_:
+            texts = set(sir.expr_str(sir.strip_ref(x["args"][0])).replace(" ", "") for x in pin) | set(sir.expr_str(sir.strip_ref(x["args"][1])).replace(" ", "") for x in outs_)
+            same = len(texts) == 1
+            obs.append(ob("%s.source/same-text" % prefix, same, ctx.where(g), "tokeniser and source map are given `%s`" % sorted(texts)[0] if same else "the tokeniser and the source map are given different texts: %s" % sorted(texts),
+                          witness=None if same else "a sheet starting with U+FEFF: every source column of line 0 is one unit short"))
     # (1) the name registered for a rewritten token is the token's source spelling (to_css_string), whatever its kind
     fs = [f for f in sc.fns if f.name == "append_token" and f.base == "StyleSheetOutput" and f.body]
     if fs:
